@@ -24,7 +24,22 @@ import schema_values as SV
 
 def reader_focus(protodir, repo, name):
     """-> {"structs": [names], "methods": [[proto, method]], "protocols": [names], "theirs": ast|None, "notes": [...]}
-    (items the two readings of <name>.proto state differently; everything when one reader failed)"""
+    (items the two readings of <name>.proto state differently; everything when one reader failed or the comparison of
+    the two readings itself fails on what the repository's reader hands back)"""
+    try:
+        return _reader_focus(protodir, repo, name)
+    except Exception as e:
+        out = {"structs": [], "methods": [], "protocols": [], "theirs": None, "notes": ["the two readings could not be compared item by item: %r (every item of the definition is suspect)" % (e,)]}
+        try:
+            mine = my_ast(protodir, name)
+            out["structs"] = [s["name"] for s in mine["structs"]]
+            out["protocols"] = [p["name"] for p in mine["protocols"]]
+        except Exception:
+            pass
+        return out
+
+
+def _reader_focus(protodir, repo, name):
     out = {"structs": [], "methods": [], "protocols": [], "theirs": None, "notes": []}
     try:
         mine = my_ast(protodir, name)
@@ -46,7 +61,11 @@ def reader_focus(protodir, repo, name):
             out["structs"].append(s["name"]); out["notes"].append("struct %s: only in the definition as I read it" % s["name"])
         elif (t["parent"], t["items"]) != (s["parent"], s["items"]):
             out["structs"].append(s["name"])
-            out["notes"].append("struct %s: definition states %s; the repository's reader makes it %s" % (s["name"], body_text(s["items"]), body_text(t["items"])))
+            if t["parent"] != s["parent"]:
+                out["notes"].append("struct %s: parent %s in the definition, %s for the repository's reader" % (s["name"], s["parent"], t["parent"]))
+            else:
+                a, b = window(s["items"], t["items"])
+                out["notes"].append("struct %s: the definition states '%s', the repository's reader makes it '%s'" % (s["name"], a, b))
     tp = {p["name"]: p for p in theirs["protocols"]}
     for p in mine["protocols"]:
         t = tp.get(p["name"])
@@ -66,11 +85,21 @@ def type_text(t):
     return t["name"] + ("<%s>" % ", ".join(type_text(x) for x in t["template"]) if t["template"] else "")
 
 
+def window(a, b):
+    """the two bodies with their common leading and trailing items abbreviated"""
+    i = 0
+    while i < len(a) and i < len(b) and a[i] == b[i]: i += 1
+    j = 0
+    while j < len(a) - i and j < len(b) - i and a[len(a) - 1 - j] == b[len(b) - 1 - j]: j += 1
+    def txt(x): return ("... " if i else "") + body_text(x[i:len(x) - j]) + (" ..." if j else "")
+    return txt(a), txt(b)
+
+
 def body_text(items):
     out = []
     for it in items:
         if "var" in it: out.append(it["var"]["name"])
-        else: out.append("%s %d {%s}" % (it["cond"], it["value"], body_text(it["items"])))
+        else: out.append("%s %s {%s}" % (it["cond"], it["value"], body_text(it["items"])))
     return " ".join(out)
 
 
@@ -240,3 +269,18 @@ def theirs_env(protodir, name, theirs_ast):
         return SchemaEnv(protodir, name, theirs_ast)
     except Exception:
         return None
+
+
+def reorder(gm, gt, t):
+    """the value tree `t` (attributes in the order of the definition as gm's environment reads it) with the attributes
+    of every object put in the order of gt's environment (same attribute names, else ValueError)"""
+    k = t[0]
+    if k == "list": return ("list", [reorder(gm, gt, x) for x in t[1]])
+    if k == "map": return ("map", [(reorder(gm, gt, a), reorder(gm, gt, b)) for a, b in t[1]])
+    if k == "obj":
+        fm = [v["name"] for v, _ in gm.fields(t[1])]
+        ft = [v["name"] for v, _ in gt.fields(t[1])]
+        if sorted(fm) != sorted(ft) or len(fm) != len(t[2]): raise ValueError("attribute sets differ for %s" % t[1])
+        byname = dict(zip(fm, t[2]))
+        return ("obj", t[1], [reorder(gm, gt, byname[n]) for n in ft])
+    return t
